@@ -33,6 +33,10 @@ Clauses ==
   \* known finding (stated with the properties): two classes sharing a local name get the same shape label, and both shapes come
   \* out with that one label and without their constraints - nothing else can be judged on such a run
   ELSE IF Tr.collide THEN {"KF.C05.samelocalname", "KF.C02.samelocalname"}
+  \* known finding: a document that states a triple more than once denotes the same graph, but the tracker and the profiler count
+  \* statements (an instance typed twice is two instances, a value stated twice is two values): nothing can be judged on such a run.
+  \* The quantifiers of C01 and C09 say "duplicate-free"; C03's does not, hence the marker.
+  ELSE IF Len(Tr.graph) # Cardinality(ToSet(Tr.graph)) THEN {"KF.C03.duplicates"}
   ELSE (IF Want("C01") THEN C!C01(Obs) ELSE {}) \cup
        (IF Want("C02") THEN C!C02(Obs) \cup (IF DupLines THEN {"C02.dup"} ELSE {}) ELSE {}) \cup
        (IF Want("C03") THEN C!C03(Obs) \cup C!C03Local(Obs) ELSE {}) \cup
